@@ -5,10 +5,12 @@ package snow
 
 import (
 	"context"
+	"errors"
 	"fmt"
 	"slices"
 	"time"
 
+	"github.com/ava-labs/avalanchego/database"
 	"github.com/ava-labs/avalanchego/ids"
 	"github.com/ava-labs/avalanchego/snow/engine/snowman/block"
 	"github.com/ava-labs/avalanchego/utils/set"
@@ -104,6 +106,12 @@ func (v *VM[I, O, A]) verifyProcessingBlocks(ctx context.Context) error {
 	invalidBlkIDs := set.NewSet[ids.ID](0)
 	for _, blk := range processingBlocks {
 		parent, err := v.GetBlock(ctx, blk.Parent())
+		// the parent is gone (consensus already rejected it while this block is still processing):
+		// this block is transitively doomed, mark it as unresolved like a block whose parent is unverified
+		if errors.Is(err, database.ErrNotFound) {
+			invalidBlkIDs.Add(blk.ID())
+			continue
+		}
 		if err != nil {
 			return fmt.Errorf("failed to fetch parent block %s while verifying processing block %s after state sync: %w", blk.Parent(), blk, err)
 		}
